@@ -486,18 +486,39 @@ def _parse(p, case, known_only=False):
     return p.parse_known_args(argv)
 
 
-def _canon_ns(ns, tops, has_sg):
-    import dataclasses
-
+def _canon_ns(ns, topinfo, sg_dests):
+    """topinfo: destination -> (declared dataclass, registered with default=SUPPRESS).  An entry counts as `the dataclass at
+    its destination` only if it is an instance of THE DECLARED CLASS (a SUPPRESS-ed destination may hold the dict of given
+    fields instead); None, another class or anything else stays a plain value and is compared as such.  `subgroups` counts
+    only as the dict whose keys are exactly the subgroup destinations."""
     out = []
     for k, v in vars(ns).items():
-        if k in tops and (dataclasses.is_dataclass(v) or isinstance(v, dict) or v is None):
+        if k in topinfo and (type(v) is topinfo[k][0] or (topinfo[k][1] and isinstance(v, dict))):
             out.append([k, "inst", ""])
-        elif k == "subgroups" and has_sg and isinstance(v, dict):
+        elif k == "subgroups" and sg_dests and isinstance(v, dict) and sorted(v) == sorted(sg_dests):
             out.append([k, "sub", ""])
         else:
             out.append([k, "nv", _jtxt(v)])
     return out
+
+
+def _stream(r):
+    """which stream a SystemExit wrote to (outcome_of: [kind, code, stderr, stdout])"""
+    if r[0] != "exit":
+        return None
+    return {(True, False): "err", (False, True): "out", (True, True): "both", (False, False): "none"}[(bool(r[2]), bool(r[3]))]
+
+
+def _errmsg(r):
+    """the text after `error: ` of an argparse rejection"""
+    if r[0] != "exit" or "error: " not in r[2]:
+        return None
+    return r[2].rsplit("error: ", 1)[1].strip()
+
+
+def _snapshot(parsers):
+    return [[(a.dest, repr(a.default), a.required, repr(a.nargs), tuple(a.option_strings)) for a in par._actions]
+            + sorted((k, repr(v)) for k, v in par._defaults.items()) for par in parsers]
 
 
 def _describe(actions):
@@ -535,7 +556,8 @@ def _forest_of(p):
                            subgroup=bool(f.metadata.get("subgroups")), init=bool(f.init),
                            cmd=f.metadata.get("cmd", True) is not False, subparser=bool(utils.is_subparser_field(f)),
                            child=any(c._field is not None and c._field.name == f.name for c in w._children)))
-        ws.append(dict(dests=list(w.destinations), suppress=argparse.SUPPRESS in w.defaults, nested=w.parent is not None, fields=fs))
+        ws.append(dict(dests=list(w.destinations), suppress=argparse.SUPPRESS in w.defaults, nested=w.parent is not None, fields=fs,
+                       cls=w.dataclass.__name__))
         fields_obs.append([fw.dest for fw in w.fields])
     return ws, fields_obs
 
@@ -546,7 +568,8 @@ def _run_one(case):
     from implutil import outcome_of, reset_simple_parsing_state
 
     reset_simple_parsing_state()
-    obs = dict(pre=None, parents=[], plain=[], forest=[], fields_obs=[], gen=[], defaults_obs=None, installed=None, groups=[],
+    obs = dict(pre=None, pre_msg=None, prepass_twin=None, sp_stream=None, oracle_stream=None, parents_intact=True,
+               parents=[], plain=[], forest=[], fields_obs=[], gen=[], defaults_obs=None, installed=None, groups=[],
                oracle=None, ap_first=None, ap_none=None, ap_late=None, sp=None, standins_from="own")
     grec_sp, grec_tw = [], []
     rp = outcome_of(lambda: _mk_parents(case))
@@ -556,6 +579,7 @@ def _run_one(case):
     for par in sp_parents:
         obs["parents"] += _describe([a for a in par._actions if not isinstance(a, argparse._HelpAction)])
         obs["parents"] += [[k, "default"] for k in par._defaults]
+    snap = _snapshot(sp_parents)
     rb = outcome_of(lambda: _build_sp(case, sp_parents, grec_sp)) if rp[0] == "ok" else rp
     standins = []
     if rb[0] != "ok":
@@ -571,6 +595,7 @@ def _run_one(case):
         if not done:
             # set-up did not finish (e.g. the subgroup choice was rejected): take the stand-ins from a parser set up on []
             obs["pre"] = rs[:2]
+            obs["pre_msg"] = _errmsg(rs)
             obs["standins_from"] = "empty-argv"
             reset_simple_parsing_state()
             box = {}
@@ -604,27 +629,52 @@ def _run_one(case):
                 acts = {id(a) for a in p._actions}
                 want = [a for par in sp_parents for a in par._actions if not isinstance(a, argparse._HelpAction)]
                 obs["installed"] = bool(want) and all(id(a) in acts for a in want)
-        tops = [d for w in obs["forest"] if not w["nested"] for d in w["dests"]]
-        has_sg = any(f["subgroup"] for w in obs["forest"] for f in w["fields"])
+        topinfo = {}
+        if q is not None:
+            for w in q._wrappers:
+                if w.parent is None:
+                    for d in w.destinations:
+                        topinfo[d] = (w.dataclass, argparse.SUPPRESS in w.defaults)
+        sg_dests = [f["dest"] for w in obs["forest"] for f in w["fields"] if f["subgroup"]]
+        obs["sp_stream"] = _stream(rs)
+        # building / using the child must leave the parents as they were (their actions are shared by reference)
+        obs["parents_intact"] = _snapshot(sp_parents) == snap
         if rs[0] == "ok":
             ns, extras = rs[1]
-            obs["sp"] = ["ok", _canon_ns(ns, tops, has_sg), list(extras)]
+            obs["sp"] = ["ok", _canon_ns(ns, topinfo, sg_dests), list(extras)]
         else:
             obs["sp"] = rs[:2]
+        if obs["pre"] is not None and sg_dests:
+            # evidence for `set-up stopped in the subgroup pre-pass`: argparse given ONLY the subgroup-choice options
+            # (no help, no abbreviations, as the pre-pass) rejects this argv, with the very message simple_parsing printed
+            import copy
+
+            def prepass():
+                t = argparse.ArgumentParser(add_help=False, allow_abbrev=False)
+                for a in standins:
+                    if a.dest in sg_dests:
+                        t._add_action(copy.copy(a))
+                t.parse_known_args(list(case["argv"]))
+                return None
+
+            r = outcome_of(prepass)
+            obs["prepass_twin"] = [r[0], r[1], _errmsg(r)] if r[0] == "exit" else r[:2]
     # the stdlib twins: the oracle (argparse semantics throughout), and for the model the same program with the groups created
     # with the settings simple_parsing's groups ended up with, under the three placements of the parents' actions
-    def twin(pl, g, raw, known_only):
+    def twin(pl, g, raw, known_only, stream=None):
         reset_simple_parsing_state()
 
         def run():
             t = _build_twin(case, _mk_parents(case), pl, standins, g, raw)
             ns, extras = _parse(t, case, known_only)
-            return ["ok", _canon_ns(ns, [], False), list(extras)]
+            return ["ok", _canon_ns(ns, {}, None), list(extras)]
 
         r = outcome_of(run)
+        if stream is not None:
+            obs[stream] = _stream(r)
         return r[1] if r[0] == "ok" else r[:2]
 
-    obs["oracle"] = twin("first", grec_tw, None, False)
+    obs["oracle"] = twin("first", grec_tw, None, False, "oracle_stream")
     groups_differ = any(a["got"] != b["got"] for a, b in zip(grec_sp, grec_tw)) or len(grec_sp) != len(grec_tw)
     raw = [g["raw"] for g in grec_sp] if groups_differ and len(grec_sp) == sum(1 for d in case["decls"] if d[0] == "group") else None
     # the model's AP is parse_known_args (parse_args is argparse's wrapper around our parse_known_args)
@@ -661,7 +711,12 @@ def _violations(case, obs):
         if g["sp"] != g["twin"]:
             out.append(("group-settings", f"add_argument_group({ {k: v[1] for k, v in g['over'].items()} }) created a group with "
                                           f"(prefix_chars, argument_default, conflict_handler)={g['sp']}, argparse: {g['twin']}"))
+    if not obs["parents_intact"]:
+        out.append(("parents-mutated", "building/using the child parser changed the parent parsers' own actions or defaults"))
     twin, sp = obs["oracle"], obs["sp"]
+    if twin[0] == "exit" and sp[:2] == twin[:2] and obs["sp_stream"] != obs["oracle_stream"]:
+        out.append(("stream", f"both exit {twin[1]} but argparse writes to {obs['oracle_stream']}, simple_parsing to {obs['sp_stream']} "
+                              f"on argv {case['argv']}"))
     tops = _tops(obs)
     has_sg = any(f["subgroup"] for w in obs["forest"] for f in w["fields"])
     sup_tops = [d for w in obs["forest"] if not w["nested"] and w["suppress"] for d in w["dests"]]
@@ -694,6 +749,9 @@ def _violations(case, obs):
     missing = [k for k in extra if k not in sup_tops and k not in sd]
     if missing:
         out.append(("missing-dest", f"namespace lacks {missing}"))
+    notinst = [k for k in tops if k not in sup_tops and k in sd and sd[k][0] != "inst"]
+    if notinst:
+        out.append(("dest-not-instance", f"the attribute at {notinst} is not an instance of the dataclass declared there: {sd[notinst[0]]}"))
     return out
 
 
@@ -716,7 +774,12 @@ def signature(case, obs, reason):
         return "parents-installed-after-own-positionals"
     if "group-settings" in clauses and _group_falsy(obs) and (not nongroup or _same(m_first, sp, obs)):
         return "group-falsy-override-dropped"
-    if clauses == ["status"] and obs["pre"] == ["exit", 2] and obs["oracle"][0] != "ok":
+    pt = obs.get("prepass_twin")
+    if clauses == ["status"] and obs["pre"] == ["exit", 2] and obs["oracle"][0] != "ok" \
+            and pt and pt[:2] == ["exit", 2] and pt[2] is not None and pt[2] == obs.get("pre_msg"):
+        # evidence demanded: set-up did not finish; argparse given ONLY the subgroup-choice options rejects this argv with
+        # the same message simple_parsing printed (so the stop IS the pre-pass meeting a malformed subgroup option);
+        # and argparse proper stopped too, only earlier / elsewhere (help, a crash of its own)
         # the subgroup choice is parsed in a pass of its own, BEFORE the main parser sees anything: a malformed subgroup
         # option wins over -h/--help (argparse: exit 0) and over whatever else argparse would have stopped at first
         return "subgroup-prepass-error-first"
@@ -817,7 +880,8 @@ def to_coq(case, obs):
             runs[txt] = f"r{len(runs)}"
         names.append(runs[txt])
     lets = "".join(f"let {name} := {txt} in\n  " for txt, name in runs.items())
-    return (f"({lets}mkcase {cbool(case['mode'] == 'args')} {pre} {_acts(obs['parents'])} {_acts(obs['plain'])}\n  {clist(ws)}\n  "
+    streams_agree = not (obs["oracle"][0] == "exit" and obs["sp"][:2] == obs["oracle"][:2] and obs["sp_stream"] != obs["oracle_stream"])
+    return (f"({lets}mkcase {cbool(streams_agree)} {cbool(obs['parents_intact'])} {cbool(case['mode'] == 'args')} {pre} {_acts(obs['parents'])} {_acts(obs['plain'])}\n  {clist(ws)}\n  "
             f"{clist([cstrlist(x) for x in obs['fields_obs']])} {cstrlist(obs['gen'])} "
             f"{'None' if obs['defaults_obs'] is None else copt(cstrlist(obs['defaults_obs']))} {inst}\n  "
             f"{' '.join(names)}\n  {_run(obs['sp'])}\n  {clist(gs)})")
